@@ -57,7 +57,7 @@ def replay(pid, path):
 MODES = {"C20": "golden"}
 
 
-def feed(run, mode, nd, classify=None, sig_of=None, budget_ms=5000, key=None, env_extra=None, keep=None):
+def feed(run, mode, nd, classify=None, sig_of=None, budget_ms=5000, key=None, env_extra=None, keep=None, nontrivial=None):
     """Replays every behaviour of `nd` through harness mode `mode`; reports disagreements."""
     if keep:
         recs = [r for r in read_records(nd) if keep(r)]
@@ -71,6 +71,8 @@ def feed(run, mode, nd, classify=None, sig_of=None, budget_ms=5000, key=None, en
             run.extra["skipped_after_repeated_aborts"] = run.extra.get("skipped_after_repeated_aborts", 0) + 1
             continue
         classes = r.get("classes") or (classify(rec) if classify else [])
+        if nontrivial is not None:
+            classes = classes if nontrivial(rec, r) else []
         k = key(rec) if key else json.dumps(rec, sort_keys=True)
         run.count(hash(k), classes)
         if i % max(1, len(recs) // 3) == 0:
@@ -569,14 +571,14 @@ def c14(run):
                 "line 2/3/5, two amount-less postings, zero rate, same-commodity rate) after every sequence of <=2 (thorough 3) blocks out of "
                 "{1 blank line, 2 blank lines, line of blanks, multi-byte comment, 3-line entry, 4-line entry with metadata}, LF or CRLF, in the root "
                 "file / an included file / a file included by an included file (also through ..), optionally followed by a valid entry; "
-                "non-trivial = every arrangement")
+                "non-trivial = the bad entry is preceded by other content or sits in an included file")
     run.assumptions += ["a syntax error may show lines from the entry's first line to the line with the first invalid token; other faults may show any line of the entry; a false assertion must point at its posting's line",
                         "file and line numbers are extracted from the rendered diagnostic (` --> path:L:C`, gutter numbers) and from LoadError::Parse's path; wording and columns are not compared",
                         "checked on FakeFileSystem and on a real directory; `okane balance` (in-process) on every 7th arrangement"]
     cfg = "Diag_quick.cfg" if run.tier == "quick" else "Diag_thorough.cfg"
     nd, n, st = tlc_gen("MCDiag.tla", cfg, "C14-gen", workers=4, timeout=1700)
     run.add_model(st)
-    feed(run, "diag", nd)
+    feed(run, "diag", nd, nontrivial=lambda rec, r: rec["depth"] > 0 or len(rec["pre"]) > 0)
     run.exhaustive = True
 
 
@@ -604,12 +606,13 @@ def c06(run):
     nd, n, st = tlc_gen("MCTotality.tla", "Totality_quick.cfg", "C06-mut", workers=8, timeout=1700, dedup=True)
     st["scenario"] = "one mutation"
     run.add_model(st)
-    feed(run, "total", nd, key=lambda r: r["text"])
+    hard = lambda rec, r: any(c in ("parse_err", "process_err") for c in (r.get("classes") or []))
+    feed(run, "total", nd, key=lambda r: r["text"], nontrivial=hard)
     if run.tier == "thorough":
         nd, n, st = tlc_gen("MCTotality.tla", "Totality_walk.cfg", "C06-walk", simulate={"num": 15000, "depth": 13}, seed=run.seed, timeout=2400)
         st["scenario"] = "mutation walks (simulation)"
         run.add_model(st)
-        feed(run, "total", nd, key=lambda r: r["text"])
+        feed(run, "total", nd, key=lambda r: r["text"], nontrivial=hard)
     # include graphs with cycles / missing files
     run.add_model(tlc_check("MCLoader.tla", "Loader_ArbLive.cfg", workers=4))
     nd, n, st = tlc_gen("MCLoader.tla", "Loader_Arb.cfg", "C06-loader", workers=8, timeout=2400, dedup=True)
@@ -642,7 +645,8 @@ def c17(run):
     run.rule = ("spec/ImportRules.tla: (rules) every list of <=3 (thorough 4) rewrite rules out of a catalogue of ten (capturing, OR-lists, AND-lists over "
                 "payee and category, payee overrides, pending flags, a rule that only matches the payee as rewritten by an earlier rule) x 12 records "
                 "(4 payees x category absent/matching/other), each imported as a debit and a credit row; (layers) every list of <=3 configuration "
-                "documents out of eight (nested, overlapping, equally long, non-matching paths; scalars set or not) x 4 file paths; "
+                "documents out of eight (nested, overlapping, equally long, non-matching paths; scalars set or not) x 4 file paths; (camt) a rule on each of the "
+                "nine Camt053 text fields against the text of each of the nine elements of a transaction detail (81 pairs: it must match exactly its own); "
                 "non-trivial = at least two rules / two documents")
     run.assumptions += ["regular expressions are abstracted to a finite Match(pattern, text) relation; the harness checks that relation against the regex engine (scenario `table`)",
                         "AND-lists have at most one capturing field (the statement does not order fields inside an element; C13 owns that question)",
@@ -650,7 +654,7 @@ def c17(run):
     nd, n, st = tlc_gen("MCImportRules.tla", "ImportRules_table.cfg", "C17-table", workers=1, timeout=600)
     run.add_model(st)
     feed(run, "rules", nd)
-    for sc, cfg in [("layers", "ImportRules_layers.cfg"), ("rules", "ImportRules_rules.cfg" if run.tier == "quick" else "ImportRules_rulesT.cfg")]:
+    for sc, cfg in [("camt", "ImportRules_camt.cfg"), ("layers", "ImportRules_layers.cfg"), ("rules", "ImportRules_rules.cfg" if run.tier == "quick" else "ImportRules_rulesT.cfg")]:
         nd, n, st = tlc_gen("MCImportRules.tla", cfg, "C17-%s" % sc, workers=8, timeout=2400)
         st["scenario"] = sc
         run.add_model(st)
@@ -678,7 +682,8 @@ def c16(run):
     else:
         nd, n, st = tlc_gen("MCImportCsv.tla", cfg, "C16-gen", simulate={"num": 150000, "depth": 2}, seed=run.seed, timeout=3000)
     run.add_model(st)
-    feed(run, "csv", nd)
+    special = lambda rec, r: rec["cfg"]["conv"] != "none" or rec["cfg"]["atype"] == "liability" or rec["cfg"]["order"] == "new_to_old" or rec["cfg"]["balance"]
+    feed(run, "csv", nd, nontrivial=special)
     if run.tier == "thorough":
         nd, n, st = tlc_gen("MCImportCsv.tla", "ImportCsv_quick.cfg", "C16-gen-q", workers=8, timeout=2400)
         run.add_model(st)
@@ -701,7 +706,7 @@ def c18(run):
     cfg = "ImportCamt_quick.cfg" if run.tier == "quick" else "ImportCamt_thorough.cfg"
     nd, n, st = tlc_gen("MCImportCamt.tla", cfg, "C18-gen", workers=8, timeout=2400)
     run.add_model(st)
-    feed(run, "camt", nd)
+    feed(run, "camt", nd, nontrivial=lambda rec, r: "batch" in (r.get("classes") or []))
     run.exhaustive = True
 
 
@@ -728,11 +733,11 @@ def c15(run):
     run.rule = ("spec/ImportText.tla: 9 payees x 5 codes x 7 notes x 9 bank-style amounts (grouping commas, currency prefix, leading minus, 0-4 decimals) x "
                 "configured precision none/0/2/4 = 11,340 statement records, of which 864 are representable in the ledger grammar and the rest violate at "
                 "least one conjunct of Representable (`;`, line ends, leading `(..)` or clear mark in the payee; parentheses or line ends in the code; line "
-                "ends, `key: value` or `:tags:` shape in the note); each through the CSV importer and (without note) the Camt053 importer; "
+                "ends, `key: value` or `:tags:` shape in the note); each through the CSV importer, (without note) the Camt053 importer and (single-line payee) the Viseca importer; "
                 "non-trivial = records with a hostile feature")
     run.assumptions += ["an importer may refuse a record it cannot represent; it may not print something that reads back differently",
                         "text fields are compared after trimming blanks; numbers by value and by scale = max(written scale, configured precision)",
-                        "Viseca statements are not generated (fixed-layout text format; its payee flows through the same Txn::new)"]
+                        "Viseca entries are generated for single-line payees (the format is line based), each next to a foreign-currency entry with exchange rate and processing fee"]
     nd, n, st = tlc_gen("MCImportText.tla", "ImportText.cfg", "C15-gen", workers=4, timeout=1700)
     run.add_model(st)
     recs, res = feed(run, "imptext", nd, sig_of=sig_c15(run), key=lambda r: json.dumps(r["rec"], sort_keys=True))
